@@ -5,6 +5,6 @@ cd "$(dirname "$0")"
 python3 tools/gen_params.py >/dev/null
 python3 -c "import sys; sys.path.insert(0,'lib'); import vlib; vlib.live_coq_project()"
 cd coq
-timeout 3000 make -k -j"$(nproc)" >/dev/null 2>coq_build.err || { tail -50 coq_build.err; echo "coq build failed (checks will report it)"; }
+timeout 3000 make -k -j"$(nproc)" COQC="timeout 900 coqc" >/dev/null 2>coq_build.err || { tail -50 coq_build.err; echo "coq build failed (checks will report it)"; }
 rm -f coq_build.err
 echo setup done
